@@ -355,7 +355,7 @@ def tree_of_events(events):
     return root
 
 
-TEXTS = ["x", "text", " ", "\n", "  \n ", "a<b&c>d", "x]]>y", "]]>z", "café", "€ 5", "\U0001d11e", "tab\there", "two\nlines", "AT&T;", "'q\"",
+TEXTS = ["x", "text", " ", "\n", "  \n ", "a<b&c>d", "x]]>y", "]]>z", "ends with ]]>", "]]>", "]]", "]", "café", "€ 5", "\U0001d11e", "tab\there", "two\nlines", "AT&T;", "'q\"",
          " lead", "trail ", " ", "a > b"]
 COMMENTS = ["c", " spaced ", "a-b", "x<y&z", "café", "€"]
 PIDATA = ["d", "a b", "", "x=\"1\"", "café"]
@@ -424,7 +424,7 @@ def gen_htmlish(rng, root="html", lead_comment=False):
             return C(rng.choice(COMMENTS[:4]))
         if rng.random() < 0.5:
             return E("nonhtml", T("x"), a=[["href", "café"]])
-        return E("c", T(rng.choice(["1 < 2 & 3 > 2", "x", "a ]]> b"])))      # the name the option vectors list in cdata-section-elements
+        return E("c", T(rng.choice(["1 < 2 & 3 > 2", "x", "a ]]> b", "tail ]]>"])))      # the name the option vectors list in cdata-section-elements
 
     def seq(d, n):
         out = []
